@@ -1,4 +1,4 @@
-import SJ.Model.Num
+import SJ.Proofs.NumFuel
 import SJ.Proofs.FloatLiteral
 /-!
 # The two transcriptions of the default number path agree
@@ -32,18 +32,6 @@ open SJ.Proofs.FloatDefault (pow10_eq overflow_eq digitVal_le intLoop_le fracLoo
 def toNumLit (p : Parts) : NumLit :=
   { neg := p.neg, intDigits := p.int, fracDigits := p.frac.getD [],
     expNeg := (p.exp.map (·.1)).getD false, expDigits := (p.exp.map (·.2)).getD [] }
-
-/-- what the machine's scanner guarantees about the parts it hands to the conversion
-    (`Proofs.Sound.numInv_final`, `Proofs.Complete.scan_num`): ASCII digits everywhere, an integer
-    part that is `0` or starts with `1`–`9`, and at least one digit after `.` / after `e[±]` -/
-structure PartsWF (p : Parts) : Prop where
-  intDigits : p.int.all isDigit = true
-  intShape : (match p.int with
-    | [] => false
-    | [_] => true
-    | d :: _ => d != 0x30) = true
-  frac : ∀ fds, p.frac = some fds → fds ≠ [] ∧ fds.all isDigit = true
-  exp : ∀ en eds, p.exp = some (en, eds) → eds ≠ [] ∧ eds.all isDigit = true
 
 theorem toNumLit_wf (p : Parts) (h : PartsWF p) : (toNumLit p).WF = true := by
   obtain ⟨neg, int, frac, exp, raw⟩ := p
@@ -106,10 +94,17 @@ theorem clampI32_eq (x : Int) : Model.Num.clampI32 x = FD.satI32 x := by
   have h2 : (-(2 ^ 31) : Int) = -2147483648 := by decide
   rw [h1, h2]
 
-/-- (A)'s table entry is (B)'s literal `1e<i>` (an equation on open terms; nothing is evaluated) -/
-theorem pow10_eq_lit (i : Nat) : Model.Num.pow10 i = FD.litPow10 i := by
-  unfold Model.Num.pow10 Model.FloatDefault.litPow10 F64.roundOrInf
+/-- (A)'s and (B)'s source literal `1e<k>` (an equation on open terms; nothing is evaluated) -/
+theorem lit10_eq (k : Nat) : Model.Num.lit10 k = FD.litPow10 k := by
+  unfold Model.Num.lit10 Model.FloatDefault.litPow10 F64.roundOrInf
   rfl
+
+/-- both read the same extracted table -/
+theorem pow10_eq_pow10 (i : Nat) : Model.Num.pow10 i = FD.pow10 i := by
+  unfold Model.Num.pow10 Model.FloatDefault.pow10
+  cases Gen.pow10Exps[i]? with
+  | none => rfl
+  | some k => simp only [Option.map_some, lit10_eq]
 
 /-! ## The `POW10` loop of `f64_from_parts` -/
 
@@ -121,6 +116,14 @@ theorem wabs_of_lt (e : Int) (h : e.natAbs < 309) : FD.wrappingAbsUsize e = e.na
   unfold Model.FloatDefault.wrappingAbsUsize Model.FloatDefault.i32Min
   rw [if_neg (by omega)]
 
+/-- `exponent.wrapping_abs() as usize` (B) and `|exponent|` (A) index the table alike: they differ only
+    for `i32::MIN`, where both are far beyond its end -/
+theorem pow10_wabs (e : Int) : FD.pow10 (FD.wrappingAbsUsize e) = Model.Num.pow10 e.natAbs := by
+  rw [pow10_eq_pow10, pow10_eq, pow10_eq]
+  by_cases hidx : e.natAbs < 309
+  · rw [wabs_of_lt e hidx]
+  · rw [if_neg hidx, if_neg (fun h => hidx ((wabs_lt_iff e).1 h))]
+
 /-- with the same fuel the two loops are the same function -/
 theorem loop_eq (fuel : Nat) : ∀ (f : UInt64) (e : Int),
     Model.Num.f64FromPartsLoop fuel f e = toFRes (FD.loop fuel f e) := by
@@ -129,23 +132,24 @@ theorem loop_eq (fuel : Nat) : ∀ (f : UInt64) (e : Int),
   | succ n ih =>
     intro f e
     unfold Model.Num.f64FromPartsLoop Model.FloatDefault.loop
-    rw [pow10_eq]
-    by_cases hidx : e.natAbs < 309
-    · rw [if_pos ((wabs_lt_iff e).2 hidx), wabs_of_lt e hidx]
-      simp only [hidx, if_true, pow10_eq_lit]
+    rw [pow10_wabs]
+    simp only
+    cases Model.Num.pow10 e.natAbs with
+    | some pow =>
+      simp only
       by_cases hpos : e ≥ 0
       · simp only [hpos, if_true]
         split <;> rfl
       · simp only [hpos, if_false]; rfl
-    · rw [if_neg (fun h => hidx ((wabs_lt_iff e).1 h))]
-      simp only [hidx, if_false, pow10_eq_lit]
+    | none =>
+      simp only
       by_cases hz : F64.isZero f = true
       · simp only [hz, if_true]; rfl
       · simp only [hz]
         by_cases hpos : e ≥ 0
         · simp only [hpos, if_true]; rfl
         · simp only [hpos, if_false]
-          rw [ih]
+          rw [ih, lit10_eq]
           rfl
 
 /-- two fuels that both suffice give the same answer -/
@@ -169,40 +173,12 @@ theorem loop_fuel_irrel (n : Nat) : ∀ (m : Nat) (f : UInt64) (e : Int),
             simp only [hp, hz, hpos, if_false] at hn hm
             exact ih m _ _ hn hm
 
-/-- (A)'s fuel `|exponent| / 308 + 3` suffices: every `None` round raises a negative exponent by 308 -/
-theorem loopA_fuel_aux (fuel : Nat) : ∀ (f : UInt64) (e : Int),
-    (if e < 0 then (-e).toNat / 308 + 1 else 1) ≤ fuel →
-    Model.Num.f64FromPartsLoop fuel f e ≠ .outOfFuel := by
-  induction fuel with
-  | zero => intro f e h; split at h <;> omega
-  | succ n ih =>
-    intro f e h
-    unfold Model.Num.f64FromPartsLoop
-    simp only
-    split
-    · split
-      · split <;> simp
-      · simp
-    · split
-      · simp
-      · split
-        · simp
-        · apply ih
-          split at h
-          · split <;> omega
-          · omega
-
-theorem loopA_fuel (f : UInt64) (e : Int) :
-    Model.Num.f64FromPartsLoop (e.natAbs / 308 + 3) f e ≠ .outOfFuel := by
-  apply loopA_fuel_aux
-  split <;> omega
-
 /-- `f64_from_parts`: (A) = (B), for every significand and exponent -/
 theorem f64FromParts_eq (positive : Bool) (s : Nat) (e : Int) :
     Model.Num.ofF (Model.Num.f64FromParts positive s e) = ofOpt (FD.f64FromParts positive s e) := by
   have hA := loopA_fuel (F64.ofU64 s) e
   have hB := SJ.Proofs.FloatDefault.loop_fuel (F64.ofU64 s) e
-  have hA' : FD.loop (e.natAbs / 308 + 3) (F64.ofU64 s) e ≠ .outOfFuel := by
+  have hA' : FD.loop (e.natAbs / Gen.fromPartsStep + 3) (F64.ofU64 s) e ≠ .outOfFuel := by
     intro h; apply hA; rw [loop_eq, h]; rfl
   unfold Model.Num.f64FromParts Model.FloatDefault.f64FromParts
   rw [loop_eq, loop_fuel_irrel _ _ _ _ hA' hB]
@@ -210,15 +186,6 @@ theorem f64FromParts_eq (positive : Bool) (s : Nat) (e : Int) :
   | done f => rfl
   | outOfRange => rfl
   | outOfFuel => exact absurd h hB
-
-theorem f64FromParts_ne_outOfFuel (positive : Bool) (s : Nat) (e : Int) :
-    Model.Num.f64FromParts positive s e ≠ .outOfFuel := by
-  have hA := loopA_fuel (F64.ofU64 s) e
-  unfold Model.Num.f64FromParts
-  cases h : Model.Num.f64FromPartsLoop (e.natAbs / 308 + 3) (F64.ofU64 s) e with
-  | ok f => simp
-  | outOfRange => simp
-  | outOfFuel => exact absurd h hA
 
 /-! ## Digit loops -/
 
@@ -479,23 +446,6 @@ theorem partsOfLiteral_ne_invalid (l : NumLit) (hwf : l.WF = true) : FD.partsOfL
         exact parseExponent_ne_invalid _ _ _ _ (by simpa using he)
       · repeat' split
         all_goals (intro h; cases h)
-
-/-- **C14 (number conversion).** On scanner-produced parts the fuelled `f64_from_parts` loop of the
-    parser model never runs out of fuel: `NRes.outOfFuel` is unreachable. -/
-theorem convertDefault_ne_outOfFuel (p : Parts) (hwf : PartsWF p) : convertDefault p ≠ .outOfFuel := by
-  rw [convertDefault_eq_floatDefault p hwf]
-  have hinv := partsOfLiteral_ne_invalid (toNumLit p) (toNumLit_wf p hwf)
-  cases h : FD.partsOfLiteral (toNumLit p) with
-  | invalid => exact absurd h hinv
-  | u64 n => intro h; cases h
-  | i64 n => intro h; cases h
-  | negInt n => intro h; cases h
-  | parts pos s e =>
-    simp only [resOfParts]
-    cases FD.f64FromParts pos s e <;> (intro h; cases h)
-  | expOverflow pos z pe =>
-    simp only [resOfParts]
-    cases FD.parseExponentOverflow pos z pe <;> (intro h; cases h)
 
 /-- the `f64` a number result stands for when an `f64` is asked for (serde's `f64` visitor casts
     `visit_u64`/`visit_i64`); `none` = `NumberOutOfRange` -/
